@@ -549,6 +549,10 @@ def onaccept_udp(listener, method, mux, handlers):
         chan, _ = udp_by_src[srcip]
     else:
         chan = mux.next_channel()
+        if not chan:
+            log('warning: too many open channels.  Discarded UDP packet.')
+            expire_connections(now, mux)
+            return
         mux.channels[chan] = lambda cmd, data: udp_done(
             chan, data, method, listener, dstip=srcip)
         mux.send(chan, ssnet.CMD_UDP_OPEN, b"%d" % listener.family)
@@ -581,6 +585,10 @@ def ondns(listener, method, mux, handlers):
         debug1('DNS request from %r to %r: %d bytes' %
                (srcip, dstip, len(data)))
     chan = mux.next_channel()
+    if not chan:
+        log('warning: too many open channels.  Discarded DNS request.')
+        expire_connections(now, mux)
+        return
     dnsreqs[chan] = now + 30
     mux.send(chan, ssnet.CMD_DNS_REQ, data)
     mux.channels[chan] = lambda cmd, data: dns_done(
